@@ -55,17 +55,20 @@ CLASSES: List[Tuple[int, str, List[str], str, dict]] = [
     (45, "c18w", ["RegBase"], "R", {}),                             # harness pair in a subclass relationship,
     (46, "c18w", ["RegDerived"], "R", {"base": 45}),                # registered base first, each with its own (de)serialiser
     (50, "c18w", ["Outer"], "P", {}),
-    (52, "c18w", ["Outer", "Inner"], "S", {"base": None, "define": True, "nested_in": 50}),          # K_nested: not found
+    (52, "c18w", ["Outer", "Inner"], "S", {"base": None, "define": True, "nested_in": 50}),          # nested in a class
+    (54, "c18w", ["Outer", "Mid"], "P", {"nested_in": 50}),
+    (56, "c18w", ["Outer", "Mid", "Deep"], "S", {"base": 52, "define": False, "nested_in": 54}),    # two levels deep; inherits Inner's methods
     (60, "c18z", ["Inner"], "S", {"base": None, "define": True}),
     (61, "c18z", ["Outer2"], "P", {}),
-    (62, "c18z", ["Outer2", "Inner"], "S", {"base": None, "define": True, "nested_in": 61}),         # K_nested: shadowed
-    (64, "c18z", ["factory", "<locals>", "Local"], "S", {"base": None, "define": True, "local": True}),  # K_nested: local
+    (62, "c18z", ["Outer2", "Inner"], "S", {"base": None, "define": True, "nested_in": 61}),         # nested; c18z also binds a module-level Inner
+    (64, "c18z", ["factory", "<locals>", "Local"], "S", {"base": None, "define": True, "local": True}),  # K_local: defined inside a function
 ]
-NESTED = {cid for cid, _, q, _, _ in CLASSES if len(q) > 1}
+LOCAL = {cid for cid, _, q, _, _ in CLASSES if "<locals>" in q}            # known-finding class K_local (C18-b)
+NESTED = {cid for cid, _, q, k, _ in CLASSES if len(q) > 1 and k == "S" and "<locals>" not in q}   # in F since 70c605d
 INPLACE = {10, 21, 24, 31, 60}      # defining classes that extend super().to_json() in place (their heirs 12, 23, 26 too)
-SER_OK = [cid for cid, _, q, k, _ in CLASSES if k == "S" and len(q) == 1]
+SER_OK = [cid for cid, _, q, k, _ in CLASSES if k == "S" and "<locals>" not in q]
 REG_OK = [cid for cid, _, q, k, _ in CLASSES if k == "R"]
-DEPTH_OF = {10: 1, 12: 2, 13: 3, 15: 4, 21: 1, 23: 2, 24: 3, 26: 4, 30: 1, 31: 2, 60: 1, 52: 1, 62: 1, 64: 1}
+DEPTH_OF = {56: 2, 10: 1, 12: 2, 13: 3, 15: 4, 21: 1, 23: 2, 24: 3, 26: 4, 30: 1, 31: 2, 60: 1, 52: 1, 62: 1, 64: 1}
 
 _WORLD: Dict[str, Any] = {}
 
@@ -437,7 +440,7 @@ def gen_value(rng, list_depth: int, obj_depth: int, nested_p: float) -> list:
         return ["l", [gen_value(rng, list_depth - 1, obj_depth, nested_p) for _ in range(n)]]
     if r < 0.62 and obj_depth > 0:
         if rng.chance(nested_p):
-            cid = rng.choice(sorted(NESTED))
+            cid = rng.choice(sorted(LOCAL))
         else:
             cid = rng.choice(SER_OK)
         n = rng.choice([0, 0, 1, 1, 2, 3])
@@ -492,8 +495,8 @@ def list_depth(d) -> int:
     return 0
 
 
-def has_nested(d) -> bool:
-    return any(x[0] == "o" and x[1] in NESTED for x in walk(d))
+def has_local(d) -> bool:
+    return any(x[0] == "o" and x[1] in LOCAL for x in walk(d))
 
 
 def fixed_cases() -> List[list]:
@@ -518,7 +521,7 @@ def fixed_cases() -> List[list]:
         v = ["o", cid, cid, [["l", [v, ["o", 40, UUIDS[1], []]]]]]
     out.append(v)
     out.append(["l", [["o", 10, 1, []], ["o", 31, 1, []], ["o", 12, 1, []], ["o", 60, 1, []]]])   # same names, different modules
-    for cid in sorted(NESTED):              # the known-finding class
+    for cid in sorted(NESTED | LOCAL):      # nested classes (regression of C18-a) and the known-finding class K_local
         out.append(["o", cid, 3, []])
         out.append(["l", [["o", 10, 0, [["o", cid, 1, []]]]]])
     return out
@@ -593,7 +596,7 @@ def run(tier: str, seed: int, replay=None) -> int:
     from translator import t_json
     rep = Report(PROP, tier, seed, "proof")
     rep.trusted = core.COQ_TRUSTED + [
-        "source pins, set `json` (pins/json.json): registry register/get_serializer/get_deserializer, module-level from_json, the six error constructors, SingletonMeta.__call__, ormatic.utils.create_engine -- hand-modelled, not regenerated; a change reopens the correspondence obligation",
+        "source pins, set `json` (pins/json.json): SubclassJSONSerializer._resolve_enclosing_class (hand model [enclosing] in Json/Resolve.v, proved equal to the Spec's owner resolution), registry register/get_serializer/get_deserializer, module-level from_json, the six error constructors, SingletonMeta.__call__, ormatic.utils.create_engine -- hand-modelled, not regenerated; a change reopens the correspondence obligation",
         "translator/t_json.py (fail-closed ast translator; idiom table in Json/JsonVal.v)",
         "hand-written recursion / class-world model in Json/Serializer.v, tied by differential execution through to_json / json.dumps / json.loads / from_json",
         "MODELLED, compared on every case: json.loads(json.dumps(j)) == j with exact types (CPython json; NaN excluded)",
@@ -602,12 +605,14 @@ def run(tier: str, seed: int, replay=None) -> int:
     ]
     rep.assume = ["user code hypothesis (premise of C18_round_trip, proved for the harness classes): a class's _from_json reads back exactly the "
                   "payload and child JSON its to_json wrote next to super().to_json(); registered (de)serialisers round-trip and write the tag",
-                  "classes are importable: their module is in sys.modules / on the path, and binds the class under its __name__ (F)",
+                  "F: classes are not function-local and are named by their own tag; C18_fragment_is_named_classes derives that from: importable "
+                  "module, dot-free names, enclosing classes defined, unique qualified names, and the PREMISE that no module is named like a class "
+                  "path (a module 'm.Outer' next to class Outer of module m would be imported in place of the class)",
                   "tuples, sets, dicts and NaN are outside the statement's value grammar and are not generated"]
     rep.rule = ("fixed edge list (every leaf kind incl. 2**70, +-inf, -0.0, lone surrogates, NUL, empty and 4-deep lists, every class of 3 subclass chains "
                 "of depth 1-4 in both styles of extending super().to_json() (copy / in-place), 7 registered third-party types incl. two base/derived "
                 "pairs registered base-first, 2-4 different instances of one class as siblings / kids / parent-child in every 5th random value) + seeded grammar-directed random values (list depth <= 4, object depth <= 4, ~4% with a "
-                "nested/local serialiser class = known-finding class); thorough adds all values of <= 4 nodes over a 7-leaf alphabet; "
+                "function-local serialiser class = known-finding class K_local; classes nested in classes are ordinary members of the class pool); thorough adds all values of <= 4 nodes over a 7-leaf alphabet; "
                 "non-trivial = contains at least one list or object; distinct = distinct value")
     ok_spec, log = core.coq_make(["Base/Sx.vo", "Json/JsonVal.vo", "Json/SerializerSpec.vo"])
     rep.oblige("build:spec", ok_spec, "" if ok_spec else core.first_error(log))
@@ -641,7 +646,7 @@ def run(tier: str, seed: int, replay=None) -> int:
         codes = [0] * len(pairs)
         rep.note("neither model nor Spec could be built; no comparison possible")
 
-    dist = {"nodes": {}, "list_depth": {}, "chain_depth": {}, "leaf_kinds": {}, "classes": {}, "in_F": 0, "K_nested": 0, "outcomes": {}}
+    dist = {"nodes": {}, "list_depth": {}, "chain_depth": {}, "leaf_kinds": {}, "classes": {}, "in_F": 0, "K_local": 0, "nested_class_objects": 0, "outcomes": {}}
     kf_instances: Dict[str, int] = {}
     failing_by_src: Dict[str, List[Any]] = {}
     bad = []
@@ -659,8 +664,9 @@ def run(tier: str, seed: int, replay=None) -> int:
                 dist["chain_depth"][cd] = dist["chain_depth"].get(cd, 0) + 1
             else:
                 dist["leaf_kinds"][x[0]] = dist["leaf_kinds"].get(x[0], 0) + 1
-        nested = has_nested(d)
-        dist["K_nested" if nested else "in_F"] += 1
+        nested = has_local(d)           # membership in the known-finding class K_local
+        dist["K_local" if nested else "in_F"] += 1
+        dist["nested_class_objects"] += sum(1 for x in nodes if x[0] == "o" and x[1] in NESTED)
         ok = f"{im[0]}" + (f":{im[1]}" if im[0] in (20, 30) else "")
         dist["outcomes"][ok] = dist["outcomes"].get(ok, 0) + 1
         if code == 0:
@@ -668,14 +674,14 @@ def run(tier: str, seed: int, replay=None) -> int:
         failing_by_src.setdefault(src, []).append(d)
         if code == 1:
             if nested:
-                rep.note(f"model stale on K_nested: finding C18-a appears repaired on {json.dumps(d)[:200]}")
+                rep.note(f"model stale on K_local: finding C18-b appears repaired on {json.dumps(d)[:200]}")
             else:
                 rep.oblige("correspondence:model", False, f"model differs from impl=spec on {json.dumps(d)[:300]}")
             continue
-        # known finding C18-a: narrow match = the class predicate AND the outcome the faithful model predicts (code 2);
-        # when the model cannot be built, the outcomes recorded with the witness (ClassNotFoundError, or an instance of class 60)
-        if nested and (code == 2 or (not model_ok and (im == [20, 4] or (im[0] == 0 and has_class(im[1], 60))))):
-            kf_instances["C18-a"] = kf_instances.get("C18-a", 0) + 1
+        # known finding C18-b: narrow match = the class predicate AND the outcome the faithful model predicts (code 2);
+        # when the model cannot be built, the outcome recorded with the witness (ClassNotSerializableError at to_json)
+        if nested and (code == 2 or (not model_ok and im == [20, 5])):
+            kf_instances["C18-b"] = kf_instances.get("C18-b", 0) + 1
             continue
         bad.append((d, im, code))
     rep.extra["distribution"] = dist
@@ -746,9 +752,9 @@ def spec_py(d) -> Any:
 
 
 def shrink(d, im):
-    """greedy: replace the case by a failing sub-value / drop list elements and kids while it still fails (and is not K_nested)"""
+    """greedy: replace the case by a failing sub-value / drop list elements and kids while it still fails (and is not K_local)"""
     def fails(x):
-        return not has_nested(x) and run_impl(x) != spec_py(x)
+        return not has_local(x) and run_impl(x) != spec_py(x)
     if not fails(d):
         return d
     changed = True
